@@ -84,15 +84,15 @@ macro_rules! shape {
 }
 
 // one value: every single code
-shape!(sgr_shape_1, 1, [false]);
+shape!(sgr_shape_one, 1, [false]);
 // a;b — two single codes ("combined equals separate")
 shape!(sgr_shape_2_semi, 2, [false, false]);
 // a:b — 4:n underline styles
 shape!(sgr_shape_2_colon, 2, [true, false]);
 // a;b;c — 38;5;n and triples of single codes
-shape!(sgr_shape_3_semi, 3, [false, false, false]);
+shape!(sgr_shape_3_semis, 3, [false, false, false]);
 // a:b:c — 38:5:n
-shape!(sgr_shape_3_colon, 3, [true, true, false]);
+shape!(sgr_shape_3_colons, 3, [true, true, false]);
 // a:b;c — an underline style followed by a single code (state must not leak across ';')
 shape!(sgr_shape_3_colon_semi, 3, [true, false, false]);
 // a;b:c — a single code followed by an underline style
@@ -181,7 +181,8 @@ pub(crate) fn wincon_next_recorder(
             *bytes = rest;
             return None;
         }
-        let style = style_of(&any_astyle());
+        // arbitrary foreground and background (the only parts of a style the console stream looks at)
+        let style = anstyle::Style::new().fg_color(any_opt_acolor().map(color_of)).bg_color(any_opt_acolor().map(color_of));
         let mut text = String::with_capacity(2);
         text.push((vk::any_u8_in(0x20, 0x7e)) as char);
         if vk::any_bool() {
